@@ -669,6 +669,16 @@ func genScenario(rng *rand.Rand, id int) *Scenario {
 		a = append(a, n)
 		parent = n.Name
 	}
+	// a third of the trees with two or more A blocks carry a "skip-tie" sibling d1: a child of the fork
+	// point that skips heights up to the height of the SECOND A block above the fork point, ties the
+	// head's total QN and has a prove value between the fork-point successor's and that second
+	// block's (so the comparison at the fork point and a comparison at its own height disagree)
+	skipAt := -1
+	if la >= 2 && rng.Intn(3) == 0 {
+		skipAt = rng.Intn(la - 1)
+		a[skipAt].PV = 150 + int64(rng.Intn(2))*50
+		a[skipAt+1].PV = 100
+	}
 	sc.Nodes = append(sc.Nodes, a...)
 	// total QN along A
 	tq := map[string]uint64{"g": 0, "z": 1}
@@ -734,6 +744,21 @@ func genScenario(rng *rand.Rand, id int) *Scenario {
 			sc.Nodes = append(sc.Nodes, NodeSpec{Name: fmt.Sprintf("c%dx", k), Parent: fmt.Sprintf("c%d", k), QN: uint64(1 + rng.Intn(3)), PV: 120, NTx: 1})
 		}
 	}
+	if skipAt >= 0 {
+		pp := "z"
+		if skipAt > 0 {
+			pp = a[skipAt-1].Name
+		}
+		q := int64(headQN) - int64(tq[pp])
+		if q < 1 {
+			q = 1
+		}
+		pv := a[skipAt].PV - 10 - int64(rng.Intn(3))*10 // below the fork-point successor, above the block at its own height
+		if rng.Intn(4) == 0 {
+			pv = a[skipAt].PV + 10 // control: must win the tie
+		}
+		sc.Nodes = append(sc.Nodes, NodeSpec{Name: "d1", Parent: pp, QN: uint64(q), PV: pv, NTx: rng.Intn(2), Gap: a[skipAt].Gap + 1 + a[skipAt+1].Gap})
+	}
 	real := append([]NodeSpec{}, sc.Nodes...)
 	// probes: one valid child per block (and genesis)
 	names := []string{"g"}
@@ -775,13 +800,23 @@ func genScenario(rng *rand.Rand, id int) *Scenario {
 		extra := []string{order[rng.Intn(len(order))], order[rng.Intn(len(order))]}
 		order = append(order, extra...)
 	}
+	if skipAt >= 0 && (shape == "A-then-B" || shape == "A-then-shuffled" || shape == "A-then-B-dups") {
+		// the skip-tie sibling meets the A head itself: deliver it right after the A blocks
+		var o2 []string
+		for _, n := range order {
+			if n != "d1" {
+				o2 = append(o2, n)
+			}
+		}
+		order = append(append(append([]string{}, o2[:la]...), "d1"), o2[la:]...)
+	}
 	if shape == "orphans-first" {
 		order = append(order, "z")
 	} else {
 		order = append([]string{"z"}, order...)
 	}
 	sc.Delivery = order
-	sc.Shape = fmt.Sprintf("A=%d fork@%d B=%d class=%s order=%s", la, f, 1+lb, class, shape)
+	sc.Shape = fmt.Sprintf("A=%d fork@%d B=%d class=%s order=%s skiptie@%d", la, f, 1+lb, class, shape, skipAt)
 	return sc
 }
 
